@@ -230,6 +230,8 @@ def e2e_case(ctx, sb, n, provider, local, cloud, mx, faults, stray=()):
     plan = model.run_driver([[600, [local, cloud, 1, mx, [], []]]])[0]
     creates = [a[1] for a in plan[1] if a[0] == 0]
     uploads = [[a[1], a[2]] for a in plan[1] if a[0] == 1]
+    deletes = [a[1] for a in plan[1] if a[0] == 2]
+    dfail = [f[1] for f in faults if f[0] == "delete" and f[1] in deletes]
     cfail = [f[1] for f in faults if f[0] == "create" and f[1] in creates]
     ufail = [[f[1], f[2]] for f in faults if f[0] == "upload" and [f[1], f[2]] in uploads]
     routes = {"dropbox": ("dropbox.create_folder", "dropbox.upload_session.start"), "yandex": ("yandex.resources.mkdir", "yandex.resources.upload_href"),
@@ -247,6 +249,13 @@ def e2e_case(ctx, sb, n, provider, local, cloud, mx, faults, stray=()):
             counters[routes[1]] = counters.get(routes[1], 0) + 1
             if [a[1], a[2]] in ufail:
                 script.append({"when": {"route": routes[1], "nth": counters[routes[1]]}, "fault": "http_5xx_json"})
+    # a failing deletion of a stale group (it only happens when no error was seen before, so the plan's deletions are the real ones)
+    droute = {"dropbox": "dropbox.delete", "yandex": "yandex.resources.delete", "google": "google.files.delete"}[provider]
+    if not cfail and not ufail:
+        for g in dfail:
+            script.append({"when": {"route": droute, "nth": deletes.index(g) + 1}, "fault": "http_5xx_json"})
+    else:
+        dfail = []
     emu = cl.Emu(sb.path("emu%d" % n), init=init, script=script or None)
     try:
         r = cl.run_upload(sb, emu, now=1700000000 + 40 * 86400, timeout=120)
@@ -277,7 +286,10 @@ def e2e_case(ctx, sb, n, provider, local, cloud, mx, faults, stray=()):
     tail_parts = out.split("Syncing...")[1:] or [""]
     sync_part = tail_parts[0].rsplit("Checking backups on", 1)[0]
     ok0 = int(not [l for l in slevel.errors_of(head) if not any(p in l for p in CHECK_RS)])
-    ok_obs = int(bool(ok0) and not slevel.errors_of(sync_part))
+    # sync.rs logs a failed group deletion but does not clear its ok flag: such lines do not count
+    ok_obs = int(bool(ok0) and not [l for l in slevel.errors_of(sync_part) if "Failed to delete" not in l])
+    if dfail and not [l for l in slevel.errors_of(sync_part) if "Failed to delete" in l] and ok0:
+        return ("violation", "real `vsb upload`: the deletion of cloud group(s) %s failed but no error is reported" % dfail)
     # observed cloud listing (final names only)
     obs = {}
     root = cl.CLOUD_ROOT + "/"
@@ -302,6 +314,10 @@ def e2e_case(ctx, sb, n, provider, local, cloud, mx, faults, stray=()):
     if not good:
         return ("violation", "real `vsb upload`: " + why)
     exp_after = cloud_after(case, m)
+    if dfail and m[2]:
+        # the groups whose deletion failed are still there, as they were
+        keep = {g: bs for g, bs in cloud if g in dfail}
+        exp_after = sorted([x for x in exp_after if x[0] not in keep] + [[g, sorted(bs)] for g, bs in keep.items()])
     if acts != m[1] or ok_obs != m[2]:
         return ("tie", "correspondence upload-run-vs-planner no longer checks: actions %s ok=%d, the model plans %s ok=%d (%s)" % (acts, ok_obs, m[1], m[2], desc))
     if obs_list != exp_after:
@@ -359,6 +375,8 @@ def e2e(ctx, rng, ncases):
                         for b in bs:
                             if rng.random() < 0.25:
                                 faults.append(("upload", g, b))
+                elif rng.random() < 0.3:
+                    faults = [("delete", g) for g, _ in cloud if rng.random() < 0.6]
                 provider = providers[n % 3]
                 # an unexpected entry on either side makes the listing report an error: the run starts with ok = false and must delete nothing
                 stray = [side for side in ("local", "cloud") if rng.random() < 0.15]
